@@ -510,10 +510,10 @@ def reader_vcs(tag, scalar, R):
 
 def build(tier):
     import core
-    # quick: one instantiation per obligation family -- rank 1 and 2 (guard arithmetic), double rank 3 (the smallest shape class on which the
+    # quick: one instantiation per obligation family -- rank 1 (int8) and 2 (guard arithmetic), double rank 3 (the smallest shape class on which the
     # EMPTY-tensor completeness claims distinguish the repaired guard from the one that rejected empty tensors), int8 rank 1 (sizeof 1:
-    # max_size == INT64_MAX); thorough adds double rank 4, int64 rank 1, int8 rank 3
-    QUICK = (('f64', 1), ('f64', 2), ('f64', 3), ('i8', 1))
+    # max_size == INT64_MAX); thorough adds double rank 1 and 4, int64 rank 1, int8 rank 3
+    QUICK = (('f64', 2), ('f64', 3), ('i8', 1))
     insts = INST if tier == 'thorough' else [i for i in INST if (i[0], i[2]) in QUICK]
     astload.dump(TU, 'nano::read')
     vcs, fns = [], []
